@@ -164,6 +164,19 @@ def c14(prop, tier, seed):
     return r
 
 
+def c20(prop, tier, seed):
+    r = REGISTRY["C20_K"](prop, tier, seed)
+    und = [o for o in r["obs"] if o.status == "undecided"]
+    if und:
+        # e.g. a changed schema impl that formats type names: CBMC cannot run it.  Bounded native stand-in.
+        try:
+            obs, infos = bounded_standin(prop, "; ".join("%s: %s" % (o.name, o.detail[:120]) for o in und), [("remote.native", "replay_c20", [])])
+            r["obs"].extend(obs); r["infos"].extend(infos)
+        except Undecided:
+            pass
+    return r
+
+
 def c10(prop, tier, seed):
     r = REGISTRY["C10_K"](prop, tier, seed)
     try:
@@ -203,7 +216,8 @@ REGISTRY = {
     "C10": c10,
     "C10_K": g_prop("C10: Kani proves on the REAL functions of sylvia/src/types.rs and sylvia/src/builder/instantiate.rs (symbolic scalars, 1-2 byte payloads) that ExecutorBuilder::{new, with_funds, build}, InstantiateBuilder::{new, with_label, with_admin, with_funds, build, build2} and Remote::{new, borrowed, as_ref, executor, update_admin, clear_admin} carry every input to the corresponding output field and leave the others unchanged (label empty when unset); on the fixture corpus the generated Executor methods return a ready builder whose body is the canonical serialisation of the same ExecMsg variant.",
                   uncovered=["querier helpers (smart query round trip needs a JSON parser)", "funds beyond one coin; addresses beyond 2 bytes"]),
-    "C20": g_prop("C20: Kani proves on the REAL Remote<T> (sylvia/src/types.rs:370-460) for T in {contract, dyn Interface<Error=E>, ()} and both constructors: it serialises (serde data model) as a struct named Remote with exactly one non-skipped member `addr` whose str has the pointer and length of the address (so every byte is the address's, for all addresses up to 6 bytes, without a content loop); a scripted {addr: s} decodes to a handle with as_ref() == s; schema_name() is `Remote` for every T; the three trait impls exist for an unsized T with no impls.",
+    "C20": c20,
+    "C20_K": g_prop("C20: Kani proves on the REAL Remote<T> (sylvia/src/types.rs:370-460) for T in {contract, dyn Interface<Error=E>, ()} and both constructors: it serialises (serde data model) as a struct named Remote with exactly one non-skipped member `addr` whose str has the pointer and length of the address (so every byte is the address's, for all addresses up to 6 bytes, without a content loop); a scripted {addr: s} decodes to a handle with as_ref() == s; schema_name() is `Remote` for every T; the three trait impls exist for an unsized T with no impls.",
                   uncovered=["serde_json: one-field struct -> one-member JSON object and str -> JSON string (dependency, assumed)", "addresses longer than 6 bytes"]),
 }
 
